@@ -55,6 +55,9 @@ type World struct {
 	flows  map[*ssa.Function]*Flow
 	preds  map[*ssa.Function]*ISet // tag predicate summaries
 	rets   map[retKey]ISet
+	rolesCache map[string]*ssa.Function
+	encCache   map[*ssa.Function]*encInfo
+	decCache   map[*ssa.Function]*[256]tagRun
 }
 
 
@@ -152,7 +155,15 @@ func (w *World) inPkg(fn *ssa.Function) bool {
 	return fn != nil && rootFn(fn).Pkg == w.Pkg
 }
 
-func (w *World) fn(name string) *ssa.Function { return w.Funcs[name] }
+func (w *World) fn(name string) *ssa.Function {
+	if f := w.Funcs[name]; f != nil {
+		return f
+	}
+	return w.roleFallback(name)
+}
+
+// role is fn with the intent made explicit: the function playing a role.
+func (w *World) role(name string) *ssa.Function { return w.fn(name) }
 
 // SrcFuncs: all source functions of the hessian package, sorted by name.
 func (w *World) SrcFuncs() []*ssa.Function {
